@@ -2,7 +2,8 @@
 //!
 //! A case is a `Scenario`: generated ST sources (CONFIGURATION with VAR_GLOBAL blocks of
 //! every retain qualifier, 1-3 programs with VAR blocks of every qualifier over all
-//! retainable types, FB instances with state, AT %I/%Q variables at global, program and FB
+//! retainable types, FB and class instances with state (nested FB instances, base-class
+//! chain; RETAIN/PERSISTENT ones at global level), AT %I/%Q variables at global, program and FB
 //! level, VAR_ACCESS paths, tasks with INTERVAL/SINGLE and FB associations) plus a history
 //! of ops {Cycle(inputs, dt), Input, Restart(Warm|Cold), PowerCycle, Fault}.
 //!
@@ -52,7 +53,9 @@ pub fn info() -> PropertyInfo {
             "every cycle of a continuation drives every declared %I address on both runtimes (inputs are environment, not state)",
             "after a warm restart / power cycle only variables are demanded by the property; the continuation differential against the model runtime is run when time, fault latch and cycle counter agree as well (they do on the real code: restart resets them in both modes)",
             "SINGLE trigger variables are declared non-retained (the property does not define the task edge state after a warm restart)",
-            "FB instances are never declared RETAIN/PERSISTENT (open finding C09-retain-fb-instance, counted as excluded shape); VAR_CONFIG initial values, %M bindings and restart_with_retain ops are generated unless their (now fixed) findings are re-opened",
+            "open finding C09-retain-fb-instance, excluded by construction and counted: FB/class instances are never declared RETAIN/PERSISTENT at program level, and a history whose configuration declares a RETAIN/PERSISTENT FB/class instance at global level contains no power cycle; global-level retained instances ARE generated and judged for warm (whole state kept, incl. nested instances and the base-class chain) and cold restarts",
+            "VAR_CONFIG initial values, %M bindings and restart_with_retain ops are generated unless their (fixed) findings are re-opened",
+            "initialisers never read other variables (whether a non-retained variable initialised from a RETAIN global sees the retained or the initial value after a warm restart is not stated by the property)",
             "power cycle in the quick tier = save -> new Runtime from the same sources -> load through FileRetainStore inside one process; the thorough tier additionally loads the file in a separate tpv process and compares its dump",
         ],
         workers_quick: 8,
@@ -292,7 +295,8 @@ fn read_access(h: &TestHarness, sc: &Scenario) -> BTreeMap<String, String> {
 #[derive(Clone, Debug)]
 enum Captured {
     Plain(Value),
-    Instance(Vec<(String, Captured)>),
+    /// member values and the captured base-class/base-FB instance (parent chain)
+    Instance(Vec<(String, Captured)>, Option<Box<Captured>>),
 }
 
 fn capture_value(rt: &Runtime, v: &Value, depth: usize) -> Captured {
@@ -303,6 +307,8 @@ fn capture_value(rt: &Runtime, v: &Value, depth: usize) -> Captured {
                     .iter()
                     .map(|(k, v)| (k.to_string(), capture_value(rt, v, depth + 1)))
                     .collect(),
+                inst.parent
+                    .map(|p| Box::new(capture_value(rt, &Value::Instance(p), depth + 1))),
             ),
             None => Captured::Plain(v.clone()),
         },
@@ -333,7 +339,24 @@ fn capture_retained(h: &TestHarness, sc: &Scenario) -> Vec<(String, Captured)> {
     out
 }
 
-fn inject_instance(h: &mut TestHarness, id: InstanceId, members: &[(String, Captured)]) {
+fn inject_instance(
+    h: &mut TestHarness,
+    id: InstanceId,
+    members: &[(String, Captured)],
+    parent: &Option<Box<Captured>>,
+) {
+    if let Some(p) = parent {
+        if let Captured::Instance(pm, pp) = p.as_ref() {
+            let parent_id = h
+                .runtime()
+                .storage()
+                .get_instance(id)
+                .and_then(|inst| inst.parent);
+            if let Some(parent_id) = parent_id {
+                inject_instance(h, parent_id, pm, pp);
+            }
+        }
+    }
     for (name, c) in members {
         match c {
             Captured::Plain(v) => {
@@ -341,11 +364,11 @@ fn inject_instance(h: &mut TestHarness, id: InstanceId, members: &[(String, Capt
                     .storage_mut()
                     .set_instance_var(id, name.as_str(), v.clone());
             }
-            Captured::Instance(inner) => {
+            Captured::Instance(inner, inner_parent) => {
                 if let Some(Value::Instance(nested)) =
                     h.runtime().storage().get_instance_var(id, name).cloned()
                 {
-                    inject_instance(h, nested, inner);
+                    inject_instance(h, nested, inner, inner_parent);
                 }
             }
         }
@@ -358,11 +381,11 @@ fn inject(h: &mut TestHarness, values: &[(String, Captured)]) {
         if let Some(name) = key.strip_prefix("g:") {
             match c {
                 Captured::Plain(v) => h.runtime_mut().storage_mut().set_global(name, v.clone()),
-                Captured::Instance(members) => {
+                Captured::Instance(members, parent) => {
                     if let Some(Value::Instance(id)) =
                         h.runtime().storage().get_global(name).cloned()
                     {
-                        inject_instance(h, id, members);
+                        inject_instance(h, id, members, parent);
                     }
                 }
             }
@@ -378,11 +401,11 @@ fn inject(h: &mut TestHarness, values: &[(String, Captured)]) {
                         .storage_mut()
                         .set_instance_var(id, var, v.clone());
                 }
-                Captured::Instance(members) => {
+                Captured::Instance(members, parent) => {
                     if let Some(Value::Instance(nested)) =
                         h.runtime().storage().get_instance_var(id, var).cloned()
                     {
-                        inject_instance(h, nested, members);
+                        inject_instance(h, nested, members, parent);
                     }
                 }
             }
@@ -796,6 +819,32 @@ pub fn helper(args: &[String]) -> Option<i32> {
                 let mut p = Probe::default();
                 let res = run_scenario(&sc, &mut p, RunOpts { separate_process: false });
                 println!("(* result: {res:?} labels={:?} nontrivial={} *)", p.labels, p.nontrivial.is_some());
+            }
+            Some(0)
+        }
+        Some("c09-try") if args.len() >= 2 => {
+            // debug aid: compile a file, run cycles / restarts given as c|warm|cold, print dumps
+            let src = std::fs::read_to_string(&args[1]).ok()?;
+            let mut h = match build(&src) {
+                Ok(h) => h,
+                Err(e) => {
+                    println!("COMPILE ERROR: {e}");
+                    return Some(1);
+                }
+            };
+            for op in &args[2..] {
+                match op.as_str() {
+                    "c" => {
+                        h.advance_time(Duration::from_millis(10));
+                        println!("cycle errors={:?}", h.cycle().errors);
+                    }
+                    "warm" => println!("warm {:?}", h.restart(RestartMode::Warm)),
+                    "cold" => println!("cold {:?}", h.restart(RestartMode::Cold)),
+                    _ => {}
+                }
+                for (k, v) in dump(h.runtime()).vars {
+                    println!("  {k} = {v}");
+                }
             }
             Some(0)
         }
